@@ -2,7 +2,9 @@
 C04 — sync always returns, with its own result, after running its closure once.
 -/
 import DesyncModel.Spec
-import DesyncModel.Tables
+import DesyncModel.Tables.Panic
+import DesyncModel.Tables.Sync
+import DesyncModel.Tables.Wake
 
 namespace Desync.C04
 open Desync Gen
